@@ -170,35 +170,47 @@ def r11_2(ctx: Ctx) -> RuleResult:
         m = cls.methods.get("match")
         if m is None:
             raise AnalysisError(f"{cls.name}.match not found")
-        tries = [n for n in m.node.body if isinstance(n, ast.Try)]
-        ok = False
-        if len(tries) == 1 and len(tries[0].body) == 1 and isinstance(tries[0].body[0], ast.Return):
-            v = tries[0].body[0].value
-            if isinstance(v, ast.Call) and callee_name(v) == "next" and len(v.args) == 1:
-                a = v.args[0]
+        # partial evaluation: the only ways out are "the first element of self.finditer(...)" and, through a
+        # StopIteration handler, None
+        from sa.peval import Explorer
+
+        FIRST = "<first element of self.finditer(data, filter_context=filter_context)>"
+
+        def on_call(c: ast.Call, args, env):  # type: ignore[no-untyped-def]
+            if callee_name(c) == "next" and len(c.args) == 1 and not c.keywords:
+                a = c.args[0]
                 if isinstance(a, ast.Call) and callee_name(a) == "iter" and len(a.args) == 1:
                     a = a.args[0]
                 if (
                     isinstance(a, ast.Call) and isinstance(a.func, ast.Attribute) and a.func.attr == "finditer"
                     and path_of(a.func.value) == "self" and _forwards(a, ["data"], ["filter_context"])
                 ):
-                    hs = tries[0].handlers
-                    if len(hs) == 1 and hs[0].type is not None and path_of(hs[0].type) == "StopIteration":
-                        rets = [r for r in hs[0].body if isinstance(r, ast.Return)]
-                        if rets and isinstance(rets[0].value, ast.Constant) and rets[0].value.value is None:
-                            ok = True
-        # no other way out: every return is the first element or the None of the StopIteration handler
-        extra = [
-            r for r in ast.walk(m.node)
-            if isinstance(r, ast.Return) and not (
-                len(tries) == 1 and (r in tries[0].body or any(r in h.body for h in tries[0].handlers))
-            )
-        ]
-        if ok and extra:
-            ok = False
-            rr.bad(m, extra[0], f"{cls.name}.match returns `{short(extra[0])}` on a path that does not take the first "
+                    return FIRST
+            return None
+
+        ex = Explorer(ctx.folder, m, None, on_call)
+        outs = ex.run({})
+        ok = bool(outs)
+        extra = None
+        saw_first = False
+        for (kind, node, value), env in zip(outs, ex.envs):
+            hs = env.get("$handlers") or ()
+            if not hs:
+                if kind == "return" and value == FIRST:
+                    saw_first = True
+                else:
+                    ok = False
+                    extra = extra or node
+            else:
+                types = [ty_ for h in hs for ty_ in ctx.escapes._handler_types(m, h)]
+                if not (kind == "return" and value is None and types == ["StopIteration"]):
+                    ok = False
+                    extra = extra or node
+        ok = ok and saw_first
+        if not ok and saw_first and isinstance(extra, ast.Return):
+            rr.bad(m, extra, f"{cls.name}.match returns `{short(extra)}` on a path that does not take the first "
                    "element of self.finditer(...): match() can then disagree with finditer/findall",
-                   construct=f"{cls.name}.match: extra return {short(extra[0])}")
+                   construct=f"{cls.name}.match: extra return {short(extra)}")
             continue
         if ok:
             rr.ok(m.loc(), f"{cls.name}.match: first element of self.finditer(...) or None")
